@@ -734,3 +734,15 @@ End TextDecode.
 
 Definition table_nl_free (tbl : list (text * segs)) : bool :=
   forallb (fun e => match unpack (snd e) with Some g => style_nl_free g | None => false end) tbl.
+
+Theorem table_styles_flags tbl : table_ok tbl = true -> table_flags_ok tbl = true ->
+  forall n s g, lookup_style tbl n = Some s -> unpack s = Some g ->
+  style_okb g = true
+  /\ (is_space_style n = false -> anc_distinct g = true /\ last_distinct g = true)
+  /\ (length s = 6 -> hc_distinct g = true).
+Proof.
+  intros T TF n s g Lk U. split.
+  - destruct (table_ok_lookup tbl n s T Lk) as (g' & U' & OK).
+    rewrite U in U'. injection U' as <-. exact OK.
+  - exact (table_flags_lookup tbl n s g TF Lk U).
+Qed.
